@@ -414,7 +414,12 @@ func runShard(bin, prop, tier, fl string, shard, n int, seed int64, budget strin
 		e = append(e, "GOMEMLIMIT=1GiB")
 	}
 	if fl == "sched" {
-		e = append(e, "GOGC=400")
+		// GOGC=400 is the fast setting while the heap is small; the memory limit makes the
+		// collector work harder before 14 workers with large memo tables exhaust the machine
+		e = append(e, "GOGC=400", "GOMEMLIMIT=2500MiB")
+	}
+	if fl == "sched-race" {
+		e = append(e, "GOMEMLIMIT=1200MiB")
 	}
 	if fl == "sched-race" {
 		e = append(e, "GORACE=halt_on_error=0 log_path="+filepath.Join(work, tag+".race"))
